@@ -153,6 +153,15 @@ func Generate(name, grammar string, opts []string) (*GenProgram, error) {
 	if err := u.CS.ParseFile(filepath.Join(repoDir, "tree", cfile)); err != nil {
 		return nil, err
 	}
+	// "$T" stands for the parser struct of the grammar (keys and modifies clauses)
+	for _, key := range sortedKeys(u.CS.Funcs) {
+		if strings.HasPrefix(key, "$T.") {
+			fc := u.CS.Funcs[key]
+			delete(u.CS.Funcs, key)
+			fc.Key = gp.structName() + key[2:]
+			u.CS.Funcs[fc.Key] = fc
+		}
+	}
 	// "$T" in modifies clauses stands for the parser struct of the grammar
 	for _, fc := range u.CS.Funcs {
 		for _, m := range fc.Modifies {
@@ -210,8 +219,8 @@ func (gp *GenProgram) setupSpec() {
 	decl("TXT", "Str")
 	decl("LOG", "TLog")
 	decl("snocL", "TLog")
+	u.ExtraCells["alog"] = "TLog"
 	if !gp.Ast {
-		u.ExtraCells["alog"] = "TLog"
 		// `text` is declared by the template only when a capture is reachable; otherwise it is a ghost
 		hasText := false
 		if fi := u.Funcs[gp.structName()+".Init"]; fi != nil {
@@ -315,6 +324,29 @@ func (gp *GenProgram) setupSpec() {
 					}
 				}
 			}
+		}
+	}
+	if ex := u.CS.Funcs[gp.structName()+".Execute"]; ex != nil && gp.Ast {
+		re := regexp.MustCompile(`p\.(\w+)\s*(\+\+|--|\+=|-=|\*=|=[^=])`)
+		written := map[string]bool{}
+		seenTxt := map[string]bool{}
+		for _, a := range gp.Spec.Actions {
+			for _, m := range re.FindAllStringSubmatch(a.Str, -1) {
+				written[m[1]] = true
+			}
+			if first, err := firstStmtText(a.Str); err == nil && !seenTxt[first] {
+				seenTxt[first] = true
+				ex.Ghosts = append(ex.Ghosts, gp.logGhost(a.ID, "", first))
+			} else {
+				u.Refused[gp.structName()+".Execute"] = "action bodies are empty or not distinguishable by their first statement: the ghost log hook cannot be attached"
+			}
+		}
+		if len(written) > 0 {
+			m := &ModClause{Text: "user state written by actions"}
+			for _, f := range sortedKeys(written) {
+				m.Fields = append(m.Fields, gp.structName()+"."+f)
+			}
+			ex.Modifies = append(ex.Modifies, m)
 		}
 	}
 	u.OpaqueExternals = true
